@@ -49,8 +49,8 @@ def run_modes(repo, modes, seed, budget=300, timeout=180, want=None):
         if exe is None:
             notes.append(f"replay harness does not build against this tree ({cfg or 'default features'}): " + err[-300:])
             continue
-        # the diagram-level oracle is cheap (0.1 s per 6000 rounds): more seeds and rounds than the ADF-level modes
-        seeds, bud = ((range(seed, seed + 8), max(budget, 3000)) if m == "bdd" else ((seed, seed + 1), budget))
+        # the oracles are cheap (bdd: 0.1 s per 6000 rounds, adf: 0.4 s per 300 ADFs): several seeds, many rounds
+        seeds, bud = ((range(seed, seed + 8), max(budget, 3000)) if m == "bdd" else (range(seed, seed + 4), max(budget, 1000)) if m == "adf" else ((seed, seed + 1), budget))
         for s in seeds:
             key = (repo, cfg, m, s, bud)
             if key not in _cache:
